@@ -56,8 +56,6 @@
         local: the function returns the final contents.  Whether the result shares the argument's
         backing array (it does when the capacity suffices) is NOT represented: a caller that keeps
         using the old slice header could observe it; Gen/Render.v says the same about its buffers.
-        [make([]byte, 0, cap)] is the empty contents (cap evaluated for nothing: its panic for a
-        negative value is not modelled).
       - [go_strconv_FormatUint_10 / _16 n]: [strconv.FormatUint(n, 10 / 16)] = the printers
         [RenderNum.dec_u] / [RenderNum.hex_u] THE HAND MODEL Gen/Render.v USES (minimal digits, lower
         case); [go_strconv_FormatInt_10] = [RenderNum.dec_s]; [go_strconv_FormatBool] =
